@@ -357,13 +357,20 @@ def ods_rows(source_ods_path, sheet=1):
     # Rows (and how often to repeat them) not yielded yet. Empty rows are held back until a non empty row
     # follows in order to skip the huge runs of empty rows spreadsheet applications pad sheets with.
     pending_rows = []
-    for table_row in _ods_table_rows(table_element):
+    try:
+        table_rows = list(_ods_table_rows(table_element))
+    except RecursionError:
+        raise errors.DataFormatError("row groups are nested too deeply", location)
+    for table_row in table_rows:
         row_repeated_count = _ods_repeat_count(table_row, _NUMBER_ROWS_REPEATED, location)
         row = []
         for table_cell in _findall(table_row, "table:table-cell", namespaces=_OOO_NAMESPACES):
             repeated_count = _ods_repeat_count(table_cell, _NUMBER_COLUMNS_REPEATED, location)
             text_ps = _findall(table_cell, "text:p", namespaces=_OOO_NAMESPACES)
-            cell_value = "\n".join(_ods_text(text_p, location) for text_p in text_ps)
+            try:
+                cell_value = "\n".join(_ods_text(text_p, location) for text_p in text_ps)
+            except RecursionError:
+                raise errors.DataFormatError("text of cell is nested too deeply", location)
             row.extend([cell_value] * repeated_count)
             location.advance_cell(repeated_count)
         pending_rows.append((row, row_repeated_count))
